@@ -49,6 +49,15 @@ READS = RP_CONTRACTS[2:]
 PXC = 'pexpect.pxssh.pxssh.'
 
 PROPS = {
+    'C14': {
+        'contracts': ['pexpect._async_w_await.PatternWaiter.data_received', 'pexpect._async_w_await.PatternWaiter.eof_received',
+                      'pexpect._async_w_await.PatternWaiter.connection_lost', 'pexpect._async_w_await.expect_async'],
+        'assumptions': [
+            'asyncio: callbacks of the protocol run one at a time; Future.done / set_result / set_exception and transport.pause_reading / resume_reading behave per their documentation (modelled as ghost state)',
+            'parity is proved as: the awaited path calls the same contracted Expecter methods (existing_data first, new_data per chunk, eof, timeout) with the same data as the blocking loop, so index / before / after / match / pending text agree by C01-C04 whenever both have received the same text at each search point; equality across different arrival points is excluded by the pexpect documentation itself',
+            'connect_read_pipe returns (transport, protocol built by the factory); wait_for returns the future outcome or raises asyncio.TimeoutError after the timeout; cancellation inside wait_for and event-loop scheduling are outside the contracts; _async_pre_await.py is dead on this interpreter and not verified',
+        ],
+    },
     'C16': {
         'contracts': ['pexpect.replwrap.REPLWrapper.run_command', 'pexpect._async_w_await.repl_run_command_async'],
         'assumptions': [
@@ -131,18 +140,18 @@ PROPS = {
     },
     'C11': {
         'contracts': [SB + '_log'] + _transport_contracts(['send', 'sendline', 'write', 'writelines']) +
-                     [PTYC + 'sendcontrol', PTYC + 'sendeof', PTYC + 'sendintr'] + READS,
+                     [PTYC + 'sendcontrol', PTYC + 'sendeof', PTYC + 'sendintr'] + READS + ['pexpect._async_w_await.PatternWaiter.data_received'],
         'assumptions': [
             'log file objects implement write(text) / flush(); two log attributes do not alias the same file object',
-            'the asyncio read path and interact() are not yet under contract in this check',
+            'interact() is not yet under contract in this check',
         ],
     },
     'C07': {
-        'contracts': READS,
+        'contracts': READS + ['pexpect._async_w_await.PatternWaiter.data_received', 'pexpect._async_w_await.expect_async'],
         'assumptions': [
             'codecs incremental decoders are homomorphisms on streams that do not end inside a character: dec(a) ++ dec(b) == dec(a ++ b) (sampled dynamically in the thorough tier); given that, feeding every chunk exactly once, in order, with final=False to the one decoder of the instance delivers the decoding of the whole stream',
             'os.read returns a non-empty chunk of at most the requested size, b"" or raises OSError',
-            'the asyncio read path (PatternWaiter.data_received) is not yet under contract in this check',
+            '_async_pre_await.py cannot be imported on this interpreter (dead code) and is not verified',
         ],
     },
     'C13': {
